@@ -2352,14 +2352,17 @@ impl<I: SignedInteger> Subframe<I> {
             for split in coefficients.len()..channel.len() {
                 let (predicted, residuals) = channel.split_at_mut(split);
 
-                residuals[0] += I::from_i64(
-                    predicted
-                        .iter()
-                        .rev()
-                        .zip(coefficients)
-                        .map(|(x, y)| (*x).into() * y)
-                        .sum::<i64>()
-                        >> qlp_shift,
+                // modular addition, as in the streaming decoder
+                residuals[0] = I::from_i64(
+                    residuals[0].into().wrapping_add(
+                        predicted
+                            .iter()
+                            .rev()
+                            .zip(coefficients)
+                            .map(|(x, y)| (*x).into() * y)
+                            .sum::<i64>()
+                            >> qlp_shift,
+                    ),
                 );
             }
         }
